@@ -144,6 +144,29 @@ type ShapeEnum struct {
 	On     bool   `cbor:"92,keyasint" json:"on"`
 }
 
+// keys spelled with leading zeros (and an explicit sign): the plain codec reads
+// the tag with strconv.Atoi, i.e. as DECIMAL: 010 is ten, -0012 minus twelve
+type ShapeKeySpelling struct {
+	A *int64  `cbor:"010,keyasint,omitempty" json:"ka,omitempty"`
+	B string  `cbor:"-0012,keyasint" json:"kb"`
+	C *string `cbor:"0100,keyasint,omitempty" json:"kc,omitempty"`
+	D int64   `cbor:"007,keyasint" json:"kd"`
+	E *int64  `cbor:"+9,keyasint,omitempty" json:"ke,omitempty"`
+}
+
+// embedded fields of defined NON-struct types, tagged: ordinary fields for
+// the plain codecs (nothing to merge), named by their tags
+type Label string
+type Blob []byte
+type Count int64
+
+type ShapeEmbScalar struct {
+	Label `cbor:"1,keyasint" json:"label"`
+	A     *int64 `cbor:"2,keyasint,omitempty" json:"a,omitempty"`
+	Blob  `cbor:"3,keyasint,omitempty" json:"blob,omitempty"`
+	Count `cbor:"4,keyasint" json:"count"`
+}
+
 type ShapeEmpty struct{}
 
 type ShapeAllOptional struct {
@@ -276,6 +299,18 @@ func (s *ShapeEnum) fields() []fd {
 }
 func (s *ShapeFold) fields() []fd {
 	return []fd{fPtrStr(60, "hwver", true, s.HwVer), fPtrStr(61, "HWVER", true, s.HwVerV2), fInt(62, "serial", false, s.Serial), fPtrInt(63, "k", true, s.K), fPtrInt(64, "\u212a", true, s.Kelvin)}
+}
+func (s *ShapeKeySpelling) fields() []fd {
+	return []fd{fPtrInt(10, "ka", true, s.A), fStr(-12, "kb", false, s.B), fPtrStr(100, "kc", true, s.C), fInt(7, "kd", false, s.D), fPtrInt(9, "ke", true, s.E)}
+}
+func (s *ShapeEmbScalar) fields() []fd {
+	r := []fd{fStr(1, "label", false, string(s.Label)), fPtrInt(2, "a", true, s.A)}
+	if len(s.Blob) > 0 {
+		r = append(r, fd{3, "blob", true, true, icbor.Bstr([]byte(s.Blob)), b64([]byte(s.Blob))})
+	} else {
+		r = append(r, fd{3, "blob", true, false, icbor.Null(), nil})
+	}
+	return append(r, fInt(4, "count", false, int64(s.Count)))
 }
 func (s *ShapeEmpty) fields() []fd { return nil }
 func (s *ShapeAllOptional) fields() []fd {
@@ -643,8 +678,8 @@ func c15CheckJSON(s shape, fresh func() any, plainComparable bool) string {
 }
 
 func TestC15_Shapes(t *testing.T) {
-	st := NewStats("C15", "TestC15_Shapes", "rapid: fifteen hand-declared struct shapes following the claims convention (flat; one- and two-level embedded struct; embedded interface holding a struct pointer, a struct by value, or nil; empty struct; all-optional struct; a struct whose JSON member names differ only by (Unicode) case; an embedded struct of an unexported type; tag options with omitempty before keyasint; a named field called like its struct type; cbor and json tags that disagree about '-' and omitempty; an integer-kind field type with a text form) x random field values x random subsets of optional fields set. CBOR: output parsed by the independent reader must be ONE definite map whose entries equal, in declaration order, the hand-written union of outer+embedded fields honouring omitempty and '-'; populate(serialise(x)) == x; for shapes without embedding the decoded map equals the plain marshaller's; bytes stable; deleting any non-optional key or duplicating a key makes populate fail. JSON likewise (no duplicate clause; a differently-cased spelling of a missing non-optional member does not stand in for it). Non-trivial = has an embedded level, or is the empty/all-absent struct; distinct = shape + presence mask")
-	st.Require = []string{"flat", "embedded-1", "embedded-2", "embedded-iface", "embedded-iface-nil", "embedded-iface-value", "case-fold-names", "embedded-unexported-type", "tag-option-order", "field-named-as-type", "tags-disagree", "text-marshaler-enum", "empty", "all-optional", "zero-entries"}
+	st := NewStats("C15", "TestC15_Shapes", "rapid: seventeen hand-declared struct shapes following the claims convention (flat; one- and two-level embedded struct; embedded interface holding a struct pointer, a struct by value, or nil; empty struct; all-optional struct; a struct whose JSON member names differ only by (Unicode) case; an embedded struct of an unexported type; tag options with omitempty before keyasint; a named field called like its struct type; cbor and json tags that disagree about '-' and omitempty; an integer-kind field type with a text form; keys spelled with leading zeros / a sign; tagged embedded fields of defined NON-struct types) x random field values x random subsets of optional fields set. CBOR: output parsed by the independent reader must be ONE definite map whose entries equal, in declaration order, the hand-written union of outer+embedded fields honouring omitempty and '-'; populate(serialise(x)) == x; for shapes without embedding the decoded map equals the plain marshaller's; bytes stable; deleting any non-optional key or duplicating a key makes populate fail. JSON likewise (no duplicate clause; a differently-cased spelling of a missing non-optional member does not stand in for it). Non-trivial = has an embedded level, or is the empty/all-absent struct; distinct = shape + presence mask")
+	st.Require = []string{"flat", "embedded-1", "embedded-2", "embedded-iface", "embedded-iface-nil", "embedded-iface-value", "case-fold-names", "embedded-unexported-type", "tag-option-order", "field-named-as-type", "tags-disagree", "text-marshaler-enum", "key-spelling", "embedded-scalar-types", "empty", "all-optional", "zero-entries"}
 	defer st.Flush(t)
 	rapid.Check(t, func(t *rapid.T) {
 		s, fresh, name := drawShape(t)
@@ -658,10 +693,18 @@ func TestC15_Shapes(t *testing.T) {
 				e.OptLvl = &l
 			}
 			s, fresh, name = e, func() any { return &ShapeEnum{} }, "text-marshaler-enum"
+		case 3:
+			s, fresh, name = &ShapeKeySpelling{A: drawOptInt(t, "a"), B: drawStr(t, "b"), C: drawOptStr(t, "c"), D: drawInt(t, "d"), E: drawOptInt(t, "e")}, func() any { return &ShapeKeySpelling{} }, "key-spelling"
+		case 4:
+			e := &ShapeEmbScalar{Label: Label(drawStr(t, "label")), A: drawOptInt(t, "a"), Count: Count(drawInt(t, "count"))}
+			if b := drawOptBytes(t, "blob"); b != nil && len(*b) > 0 {
+				e.Blob = Blob(*b)
+			}
+			s, fresh, name = e, func() any { return &ShapeEmbScalar{} }, "embedded-scalar-types"
 		case 1:
 			s, fresh, name = &ShapeTagsDisagree{Debug: drawStr(t, "debug"), Count: drawOptInt(t, "count"), Secret: drawStr(t, "secret"), Opt: drawOptStr(t, "opt")}, func() any { return &ShapeTagsDisagree{} }, "tags-disagree"
 		}
-		plain := name == "flat" || name == "empty" || name == "all-optional" || name == "tag-option-order" || name == "field-named-as-type" || name == "tags-disagree" || name == "text-marshaler-enum"
+		plain := name == "flat" || name == "empty" || name == "all-optional" || name == "tag-option-order" || name == "field-named-as-type" || name == "tags-disagree" || name == "text-marshaler-enum" || name == "key-spelling" || name == "embedded-scalar-types"
 		if msg := c15CheckCBOR(s, fresh, plain); msg != "" {
 			t.Fatalf("C15 violated (CBOR, shape %s): %s", name, msg)
 		}
